@@ -247,6 +247,7 @@ void run_language(const Lng &g, int m, bool th) {
 }
 
 // join / meet of all pairs of conjunctions with <= 1 (x <= 2 in thorough) constraints
+long REPLAY_A = -1, REPLAY_B = -1; // replay of one lattice pair
 void run_lattice(const Lng &g, bool th) {
   struct Conj { std::vector<size_t> idx; PSet S; };
   std::vector<Conj> pool;
@@ -267,9 +268,11 @@ void run_lattice(const Lng &g, bool th) {
   vp::statmax("lattice_pool." + DOMNAME, (long long)pool.size());
   uint64_t caseno = 1000000;
   for (size_t a = 0; a < pool.size(); a++) {
+    if (REPLAY_A >= 0 && (long)a != REPLAY_A) continue;
     if (!vp::mine(caseno++)) continue;
     if (vp::past_deadline()) { vp::incomplete(DOMNAME + " " + CFGNAME + " lattice pairs"); return; }
     for (size_t b = 0; b < pool.size(); b++) {
+      if (REPLAY_B >= 0 && (long)b != REPLAY_B) continue;
       if (!th && pool[a].idx.size() + pool[b].idx.size() > 3) continue;
       std::string spec = "l|" + DOMNAME + "|" + CFGNAME + "|" + std::to_string(a) + "|" + std::to_string(b);
       vp::set_case(spec);
@@ -504,6 +507,7 @@ int main(int argc, char **argv) {
     rf = vp::split(rp, '|');
     only = rf[1];
     mode = rf[0] == "lift" ? "lifting" : (rf[0] == "m4" ? "meet4" : "exact");
+    if (rf[0] == "l" && rf.size() >= 5) { REPLAY_A = atol(rf[3].c_str()); REPLAY_B = atol(rf[4].c_str()); }
     vp::args().nslices = 1;
     vp::args().slice = 0;
   }
